@@ -141,7 +141,8 @@ class ModelState:
         except Exception as e:  # noqa: BLE001 - navigation failed the way built-ins fail
             return Outcome("exc", exc=e), None
         args = [
-            model.decode(a, self_obj=target, aux=aux_plain or (lambda v: model.norm(model.decode(v))))
+            model.decode(a, self_obj=target, aux=aux_plain or (lambda v: model.norm(model.decode(v))),
+                         node=lambda p_: copy.deepcopy(self.resolve(res, p_)))
             for a in step.get("args", [])
         ]
         mut = model.is_mutator(op)
@@ -531,6 +532,14 @@ class Session:
             self.counters["skipped_mutators_on_untracked_handles"] = \
                 self.counters.get("skipped_mutators_on_untracked_handles", 0) + 1
             return
+        for a in step.get("args", []):
+            if isinstance(a, dict) and len(a) == 1 and "$node" in a:
+                src = m._safe_resolve(H.res, a["$node"])
+                if not isinstance(src, (dict, list)) or H.root not in self.objs:
+                    # the position the value was to be taken from no longer holds a container at run time
+                    self.counters["skipped_node_args"] = self.counters.get("skipped_node_args", 0) + 1
+                    return
+                self.counters["node_args"] = self.counters.get("node_args", 0) + 1
         if "k" in step and checked:
             # the operation was generated for a dict / a list: when the run-time content differs from what the
             # generator assumed (popitem, faults, rejected operations) and the position now holds the other kind,
@@ -553,7 +562,8 @@ class Session:
         if nav_exc is not None:
             sut = Outcome("exc", exc=nav_exc)
         else:
-            args = [model.decode(a, self_obj=node, aux=self._aux_sut) for a in step.get("args", [])]
+            args = [model.decode(a, self_obj=node, aux=self._aux_sut, node=lambda p_: self._navigate(H.root, p_))
+                    for a in step.get("args", [])]
             if "fault" in step and not armed:
                 from . import inject
 
